@@ -273,7 +273,13 @@ def case_basis(log, mode, n, deg, mode_N=False, raw_input=False):
     kw = {"mode": mode, "n": n, "deg": deg, "mode_N": mode_N}
 
     def run():
-        xs, us, xg, d, ax = build(ip, n, deg, mode, mode_N, raw_input)
+        try:
+            xs, us, xg, d, ax = build(ip, n, deg, mode, mode_N, raw_input)
+        except ValueError as e:
+            v = prove_formula(z3.BoolVal(False), "a sorted grid of %d distinct points with degree %d is accepted (constructor raised ValueError: %s)" % (n, deg, e))
+            decide(log, v, key="InterpolatorDispatcher.__init__:valid-input-rejected", replay=(MOD, "replay_accept", dict(kw)), sampler=_sampler(n, mode))
+            log.twin("sorted grid")
+            return
         # -- interior of every interval
         for k in range(n - 1):
             x, u = point_in("xe%d" % k, k, xs, us, mode, ax, eps, n)
@@ -381,6 +387,7 @@ class _ZDeg(ZInt):
 def case_reject_degree(log, mode, n):
     ip, _np = load()
     log.encode(ip.InterpolatorDispatcher.__init__)
+    seen = set()
 
     def run():
         xs = sym_nodes(n, mode)
@@ -396,16 +403,33 @@ def case_reject_degree(log, mode, n):
         except _Reached:
             rejected = False
         bad = z3.Or(deg.e < 1, deg.e >= n)
-        goal = bad if rejected else z3.Not(bad)
-        v = prove_formula(goal, "%d nodes: %s => degree %s" % (n, "ValueError" if rejected else "accepted", "< 1 or >= len(grid)" if rejected else "in 1..len(grid)-1"))
-        decide(log, v, key="InterpolatorDispatcher.__init__:degree-check", replay=(MOD, "replay_reject_degree", {"mode": mode, "n": n}),
+        if rejected:
+            v = prove_formula(bad, "%d nodes: ValueError from the sanity checks => degree < 1 or >= len(grid)" % n)
+            decide(log, v, key="InterpolatorDispatcher.__init__:degree-check", replay=(MOD, "replay_reject_degree", {"mode": mode, "n": n}),
                    candidates=[{"deg": str(k)} for k in range(-1, n + 2)])
+        else:
+            # the sanity checks were passed with the degree still symbolic: finish the construction for every integer
+            # value the path condition allows (finite), on the symbolic grid
+            base = S.context_constraints()
+            for k in range(-3, n + 4):
+                if S.check(base + [deg.e == k])[0] != "sat":
+                    continue
+                seen.add(k)
+                try:
+                    ip.InterpolatorDispatcher(xg, k)
+                    ok_k = True
+                except ValueError:
+                    ok_k = False
+                v = prove_formula(z3.BoolVal(ok_k == (1 <= k <= n - 1)), "%d nodes, degree %d (passes the sanity checks): constructor %s, expected %s"
+                                  % (n, k, "succeeds" if ok_k else "raises ValueError", "success" if 1 <= k <= n - 1 else "ValueError"))
+                decide(log, v, key="InterpolatorDispatcher.__init__:degree-check", replay=(MOD, "replay_reject_degree", {"mode": mode, "n": n}),
+                       candidates=[{"deg": str(k)}])
         log.twin("degree range")
 
     _r, pm = explore(run)
     log.path_stats(pm)
-    if pm.paths < 3:
-        log.inconclusive.append("degree check: expected 3 paths (too small / too large / accepted), explored %d" % pm.paths)
+    if pm.paths < 3 or not set(range(1, n)) <= seen:
+        log.inconclusive.append("degree check: expected 3 paths (too small / too large / accepted) covering degrees 1..%d, explored %d paths, degrees %r" % (n - 1, pm.paths, sorted(seen)))
 
 
 def case_reject_duplicates(log, mode, n):
@@ -689,6 +713,19 @@ def replay_reinterp(point, mode, n, deg, tnames, m):
         if abs(got - want) > 1e-8 * _scale(us, tu, deg, m):
             return {"detail": "log=%s degree=%d nodes=%r targets=%r: row %d of get_interpolation is %r; applied to u^%d on the nodes it gives %r, "
                               "but u(target)^%d = %r" % (mode, deg, xs, ts, i, list(R[i]), m, got, m, want)}
+    return None
+
+
+def replay_accept(point, mode, n, deg, mode_N=False):
+    import eko.interpolation as ip
+
+    g = _nodes(point, n, mode)
+    if g is None:
+        return None
+    try:
+        ip.InterpolatorDispatcher(ip.XGrid(g[0], log=mode), deg, mode_N=mode_N)
+    except ValueError as e:
+        return {"detail": "valid input rejected: grid %r (log=%s), degree %d -> ValueError: %s" % (g[0], mode, deg, e)}
     return None
 
 
